@@ -91,7 +91,7 @@ def gen(tier, rng):
             rb = bytes(rng.randrange(256) for _ in range(p.sig))
             for cl in (None, 0, 1, 190, 191, 192, 222, 223, 224, 225, 243, 244, 245, 254, 255, 256):
                 ctx = 0 if cl is None else bytes(rng.randrange(256) for _ in range(cl))
-                mm = bytes(rng.randrange(256) for _ in range(rng.choice([0, 1, 64, 200])))
+                mm = bytes(rng.randrange(256) for _ in range(rng.choice([0, 1, 64, 200, 1024 - 2, 2048 - 2 - (cl or 0), 2048 - (cl or 0) + 1, 2040, 2048, 4096 - 2 - (cl or 0), 4096, 65536 - 2])))
                 tg = ["in_domain", "adversarial", "api", "ctx-grid"]
                 out.append(Case("ml_verify", api, [pk, mm, rb, ctx], tg + ["crate-only"]))
                 for ph in (0, 1):
